@@ -339,6 +339,13 @@ def plan_C03(c):
 def plan_C04(c):
     c.mc('MC_Refine', cfg='MC_Refine_ok' if c.tier == 'quick' else 'MC_Refine_ok_full')
     c.mc('MC_Refine', cfg='MC_Refine_trunc_first', expect='violation')      # the double rounding of finding F2 must be rejected
+    if c.tier != 'quick':
+        # unbounded in the dividend (Apalache): the sticky-bit lemma of the repair - one rounding of (2 * trunc(n/d) +- 1) / (2 * 10^k)
+        # equals one rounding of n / (d * 10^k) in every mode; the truncate-then-round variant (F2) is rejected
+        c.apalache('AP_Round', 'Sticky')
+        c.apalache('AP_Round', 'Sticky', expect='violation',
+                   mutate=('RoundQ(2 * TDiv(n, d) + (IF n >= 0 THEN 1 ELSE 0 - 1), 2 * T, mode) = RoundQ(n, d * T, mode)',
+                           'RoundQ(TDiv(n, d), T, mode) = RoundQ(n, d * T, mode)'))
     g_small(c, ['div_rounded', 'mul_rounded', 'quantize'])
     g_bounds(c, ['div_rounded', 'mul_rounded', 'quantize'], with_modes=True, stride=1 if c.tier != 'quick' else 3)
     g_maxquot(c, 'div_rounded')
